@@ -114,8 +114,8 @@ fn prefix_successor(prefix: &[u8]) -> Option<Vec<u8>> {
 
 /// Verification hooks (compiled only with `--cfg d_engine_verif`; add-only, no behaviour change).
 ///
-/// `scan_prefix` calls the registered callback between the end of the iteration and the read of
-/// `last_applied_index`, so that an out-of-tree harness can run a concurrent `apply_chunk` exactly
+/// `scan_prefix` calls the registered callback between the read of `last_applied_index` and the
+/// creation of the iterator, so that an out-of-tree harness can run a concurrent `apply_chunk` exactly
 /// in that window. Without a callback it does nothing.
 #[cfg(d_engine_verif)]
 static VERIF_ROCKS_SCAN_GAP: std::sync::OnceLock<fn()> = std::sync::OnceLock::new();
@@ -686,6 +686,11 @@ impl RocksDBStateMachine {
         // data first and publishes last_applied afterwards, so everything up to `revision` is visible
         // to the iterator (the data may be newer than the revision, never older).
         let revision = self.last_applied_index.load(Ordering::SeqCst);
+        #[cfg(d_engine_verif)]
+        if let Some(f) = VERIF_ROCKS_SCAN_GAP.get() {
+            f();
+        }
+
         let iter = db.iterator_cf_opt(&cf, opts, IteratorMode::From(prefix, Direction::Forward));
 
         let mut entries = Vec::new();
@@ -695,11 +700,6 @@ impl RocksDBStateMachine {
                 break;
             }
             entries.push((Bytes::copy_from_slice(&k), Bytes::copy_from_slice(&v)));
-        }
-
-        #[cfg(d_engine_verif)]
-        if let Some(f) = VERIF_ROCKS_SCAN_GAP.get() {
-            f();
         }
 
         Ok(ScanResult { entries, revision })
